@@ -216,6 +216,12 @@ def loadClauses (py c js m : List Stmt) (cPre : List (Space × Name) := []) : Li
   [ ("python_loads", loads .py py), ("c_compiles", loads .c c cPre), ("js_loads", loads .js js),
     ("js_arrays_fresh", jsFresh js), ("matlab_defined_before_use", loads .m m) ]
 
+/-- the class of the open finding C15-F3: some alias resolves (directly or through other aliases) to a struct -/
+def Reg.aliasOfStruct (R : Reg) : Bool := R.aliases.any (·.isStruct)
+
+/-- the class of the open finding C15-F4: some struct has a field whose type is a message -/
+def Reg.structUsesMsg (R : Reg) : Bool := R.structs.any (fun d => d.fields.any (fun f => f.kind == .message))
+
 /-! ## C16: what a re-parse of the combined YAML must preserve -/
 
 /-! ### what an item defines and what it refers to (hypotheses of the round-trip theorems, evaluated by the driver) -/
